@@ -225,7 +225,7 @@ Qed.
 
 (* ------------------------------------------------------------------ extract_element_fixed_width *)
 Lemma xfw_digits : forall ds rest sz ii val_sz tagacc nt tcap vcap,
-  all_digits ds -> ii + lenN ds <= sz -> nt + lenN ds <= tcap ->
+  all_digits ds -> ii + lenN ds <= sz -> nt + lenN ds < tcap ->
   xfw_loop (ds ++ rest) sz ii val_sz tagacc nt tcap vcap =
   xfw_loop rest sz (ii + lenN ds) val_sz (rev ds ++ tagacc) (nt + lenN ds) tcap vcap.
 Proof.
@@ -233,7 +233,7 @@ Proof.
   - cbn [lenN app rev]. rewrite !N.add_0_r. reflexivity.
   - inversion Hd as [|? ? Hd1 Hd2]; subst. cbn [lenN] in *. cbn [app xfw_loop].
     assert (E1 : (ii <? sz) = true) by (apply N.ltb_lt; lia).
-    assert (E2 : (nt <? tcap) = true) by (apply N.ltb_lt; lia).
+    assert (E2 : (nt + 1 <? tcap) = true) by (apply N.ltb_lt; lia).
     rewrite E1, Hd1, E2. rewrite IH by (try assumption; lia). cbn [rev]. rewrite <- app_assoc. cbn [app].
     replace (ii + 1 + lenN ds) with (ii + N.succ (lenN ds)) by lia.
     replace (nt + 1 + lenN ds) with (nt + N.succ (lenN ds)) by lia. reflexivity.
@@ -242,18 +242,19 @@ Qed.
 (* the content is taken by its announced length: ANY bytes (SOH, '=', NUL, ...), and whatever
    follows is not even looked at *)
 Theorem xfw_exact : forall tag content rest sz tcap vcap,
-  all_digits tag -> lenN tag <= tcap -> 0 < tcap -> lenN content < vcap ->
+  all_digits tag -> lenN tag < tcap -> lenN content < vcap ->
   lenN tag + 1 + lenN content <= sz ->
   extract_element_fixed_width (tag ++ EQC :: content ++ rest) sz (lenN content) tcap vcap
   = XOk tag content (lenN tag + 1 + lenN content + 1).
 Proof.
-  intros tag content rest sz tcap vcap Ht Htc Htc0 Hvc Hsz. unfold extract_element_fixed_width.
+  intros tag content rest sz tcap vcap Ht Htc Hvc Hsz. unfold extract_element_fixed_width.
   assert (E0 : ((0 <? tcap) && (0 <? vcap)) = true).
   { apply andb_true_intro; split; apply N.ltb_lt; lia. }
   rewrite E0. rewrite xfw_digits by (try assumption; lia). cbn [N.add]. cbn [xfw_loop].
   assert (E1 : (lenN tag <? sz) = true) by (apply N.ltb_lt; lia). rewrite E1, eqc_not_digit.
-  change (EQC =? EQC) with true. cbn [negb orb].
+  change (EQC =? EQC) with true.
+  assert (E3 : (lenN content <? vcap) = true) by (apply N.ltb_lt; lia). rewrite E3.
   assert (E2 : (sz <? lenN tag + 1 + lenN content) = false) by (apply N.ltb_ge; lia). rewrite E2.
-  assert (E3 : (lenN content <? vcap) = true) by (apply N.ltb_lt; lia). rewrite E3. cbn [negb].
+  cbn [negb orb].
   rewrite firstN_app_len. rewrite N.ltb_irrefl. rewrite app_nil_r, rev_involutive. reflexivity.
 Qed.
